@@ -58,7 +58,7 @@ def main():
         runpat = "^(%s)$" % "|".join(tests)
         dst = os.path.join(wt, place, "zz_seeded_" + demo)
         shutil.copy(os.path.join(src, demo), dst)
-        cmd = "go test -vet=off -count=1 -timeout 120s -run '%s' ./%s" % (runpat, place)
+        cmd = "go test " + os.environ.get("CONFIRM_FLAGS", "") + " -vet=off -count=1 -timeout 300s -run '%s' ./%s" % (runpat, place)
         rc1, out1 = sh(cmd, wt)
         ran.append({"cmd": cmd + " (with change)", "rc": rc1})
         if rc1 == 0:
